@@ -79,6 +79,10 @@ pub struct CircuitInfo {
 /// Uniform access to a recursive-verification universe (implemented by `rec_universe!`).
 pub trait RecUni: 'static {
     const NAME: &'static str;
+    /// Smallest blow-up for which the circuit tables' degree-3 constraints fit: with a hiding PCS
+    /// the randomised trace costs one more constraint degree, so blow-up 2 is a parameter error
+    /// there (p3 rejects the honest proof natively with an OOD mismatch), not a shape to explore.
+    const MIN_LOG_BLOWUP: usize;
     type Val: p3_field::PrimeField64;
     type UniProof: Serialize + serde::de::DeserializeOwned;
     type BatchProof: Serialize + serde::de::DeserializeOwned;
@@ -108,8 +112,73 @@ pub trait RecUni: 'static {
     fn gen_program(rng: &mut crate::core::prng::Rng, cfg: &crate::gprog::GenCfg) -> crate::gprog::Program;
 }
 
+
+/// Type plumbing per PCS flavour: `plain` = TwoAdicFriPcs over the plain Merkle MMCS (the test
+/// parameters of p3_test_utils); `zk` = HidingFriPcs (randomised codewords, `is_zk`) over the plain
+/// MMCS; `zksalt` = HidingFriPcs over the salted MerkleTreeHidingMmcs for inputs and commit phases.
+macro_rules! rec_flavor_types {
+    (plain) => {
+        pub type RecMmcs = RecValMmcs<F, DIGEST_ELEMS, MyHash, MyCompress>;
+        pub type InnerFri = FriProofTargets<F, Challenge, RecExtensionValMmcs<F, Challenge, DIGEST_ELEMS, RecMmcs>, InputProofTargets<F, Challenge, RecMmcs>, Witness<F>>;
+    };
+    (zk) => {
+        pub type MyPcs = p3_fri::HidingFriPcs<F, Dft, MyMmcs, ChallengeMmcs, rand::rngs::SmallRng>;
+        pub type MyConfig = StarkConfig<MyPcs, Challenge, Challenger>;
+        pub type RecMmcs = RecValMmcs<F, DIGEST_ELEMS, MyHash, MyCompress>;
+        pub type InnerFri = p3_recursion::pcs::fri::HidingFriProofTargets<F, Challenge, RecExtensionValMmcs<F, Challenge, DIGEST_ELEMS, RecMmcs>, InputProofTargets<F, Challenge, RecMmcs>, Witness<F>>;
+    };
+    (zksalt) => {
+        pub const SALT_ELEMS: usize = 4;
+        pub type MyMmcs = p3_merkle_tree::MerkleTreeHidingMmcs<<F as p3_field::Field>::Packing, <F as p3_field::Field>::Packing, MyHash, MyCompress, rand::rngs::SmallRng, 2, DIGEST_ELEMS, SALT_ELEMS>;
+        pub type ChallengeMmcs = p3_commit::ExtensionMmcs<F, Challenge, MyMmcs>;
+        pub type MyPcs = p3_fri::HidingFriPcs<F, Dft, MyMmcs, ChallengeMmcs, rand::rngs::SmallRng>;
+        pub type MyConfig = StarkConfig<MyPcs, Challenge, Challenger>;
+        pub type RecMmcs = p3_recursion::pcs::fri::RecValHidingMmcs<F, DIGEST_ELEMS, SALT_ELEMS, MyHash, MyCompress, rand::rngs::SmallRng>;
+        pub type InnerFri = p3_recursion::pcs::fri::HidingFriProofTargets<F, Challenge, RecExtensionValMmcs<F, Challenge, DIGEST_ELEMS, RecMmcs>, InputProofTargets<F, Challenge, RecMmcs>, Witness<F>>;
+    };
+}
+macro_rules! rec_flavor_pcs {
+    (plain, $s:ident, $hash:ident, $compress:ident, $fri:ident) => {{
+        let val_mmcs = MyMmcs::new($hash, $compress, $s.cap_height);
+        let challenge_mmcs = ChallengeMmcs::new(val_mmcs.clone());
+        let fri_params = $fri(challenge_mmcs);
+        MyPcs::new(Dft::default(), val_mmcs, fri_params)
+    }};
+    (zk, $s:ident, $hash:ident, $compress:ident, $fri:ident) => {{
+        let val_mmcs = MyMmcs::new($hash, $compress, $s.cap_height);
+        let challenge_mmcs = ChallengeMmcs::new(val_mmcs.clone());
+        let fri_params = $fri(challenge_mmcs);
+        MyPcs::new(Dft::default(), val_mmcs, fri_params, 2, <rand::rngs::SmallRng as rand::SeedableRng>::seed_from_u64(0x5eed_0001))
+    }};
+    (zksalt, $s:ident, $hash:ident, $compress:ident, $fri:ident) => {{
+        let val_mmcs = MyMmcs::new($hash, $compress, $s.cap_height, <rand::rngs::SmallRng as rand::SeedableRng>::seed_from_u64(0x5eed_0002));
+        let challenge_mmcs = ChallengeMmcs::new(val_mmcs.clone());
+        let fri_params = $fri(challenge_mmcs);
+        MyPcs::new(Dft::default(), val_mmcs, fri_params, 2, <rand::rngs::SmallRng as rand::SeedableRng>::seed_from_u64(0x5eed_0001))
+    }};
+}
+macro_rules! rec_flavor_min_blowup {
+    (plain) => {
+        1
+    };
+    ($other:ident) => {
+        2
+    };
+}
+macro_rules! rec_flavor_private {
+    (plain, $r:expr, $ids:expr, $op:expr, $p2cfg:expr) => {
+        set_fri_mmcs_private_data::<F, Challenge, ChallengeMmcs, MyMmcs, MyHash, MyCompress, DIGEST_ELEMS>($r, $ids, $op, $p2cfg)
+    };
+    (zk, $r:expr, $ids:expr, $op:expr, $p2cfg:expr) => {
+        set_fri_mmcs_private_data::<F, Challenge, ChallengeMmcs, MyMmcs, MyHash, MyCompress, DIGEST_ELEMS>($r, $ids, &($op).1, $p2cfg)
+    };
+    (zksalt, $r:expr, $ids:expr, $op:expr, $p2cfg:expr) => {
+        p3_recursion::pcs::set_hiding_salted_fri_mmcs_private_data::<F, Challenge, ChallengeMmcs, MyMmcs, DIGEST_ELEMS>($r, $ids, $op, $p2cfg)
+    };
+}
+
 macro_rules! rec_universe {
-    ($modname:ident, $uname:expr, $params:ident, $p2params:ty, $p2cfg:expr, $defperm:path) => {
+    ($modname:ident, $uname:expr, $flavor:ident, $params:ident, $p2params:ty, $p2cfg:expr, $defperm:path) => {
         pub mod $modname {
             use p3_batch_stark::CommonData;
             use p3_circuit::CircuitBuilder;
@@ -136,30 +205,23 @@ macro_rules! rec_universe {
             pub type UniProof = p3_uni_stark::Proof<MyConfig>;
             pub type BatchProof = BatchStarkProof<MyConfig>;
 
-            pub type InnerFri = FriProofTargets<
-                F,
-                Challenge,
-                RecExtensionValMmcs<F, Challenge, DIGEST_ELEMS, RecValMmcs<F, DIGEST_ELEMS, MyHash, MyCompress>>,
-                InputProofTargets<F, Challenge, RecValMmcs<F, DIGEST_ELEMS, MyHash, MyCompress>>,
-                Witness<F>,
-            >;
+            rec_flavor_types!($flavor);
 
             pub fn config(s: &FriShape) -> MyConfig {
                 let perm = $defperm();
                 let hash = MyHash::new(perm.clone());
                 let compress = MyCompress::new(perm.clone());
-                let val_mmcs = MyMmcs::new(hash, compress, s.cap_height);
-                let challenge_mmcs = ChallengeMmcs::new(val_mmcs.clone());
-                let fri_params = FriParameters {
-                    log_blowup: s.log_blowup,
-                    log_final_poly_len: s.log_final_poly_len,
-                    max_log_arity: s.max_log_arity,
-                    num_queries: s.num_queries,
-                    commit_proof_of_work_bits: s.commit_pow_bits,
-                    query_proof_of_work_bits: s.query_pow_bits,
-                    mmcs: challenge_mmcs,
+                let shape = *s;
+                let fri = move |mmcs: ChallengeMmcs| FriParameters {
+                    log_blowup: shape.log_blowup,
+                    log_final_poly_len: shape.log_final_poly_len,
+                    max_log_arity: shape.max_log_arity,
+                    num_queries: shape.num_queries,
+                    commit_proof_of_work_bits: shape.commit_pow_bits,
+                    query_proof_of_work_bits: shape.query_pow_bits,
+                    mmcs,
                 };
-                let pcs = MyPcs::new(Dft::default(), val_mmcs, fri_params);
+                let pcs = rec_flavor_pcs!($flavor, s, hash, compress, fri);
                 MyConfig::new(pcs, Challenger::new(perm))
             }
 
@@ -224,7 +286,7 @@ macro_rules! rec_universe {
                         FibonacciAir,
                         MyConfig,
                         MerkleCapTargets<F, DIGEST_ELEMS>,
-                        InputProofTargets<F, Challenge, RecValMmcs<F, DIGEST_ELEMS, MyHash, MyCompress>>,
+                        InputProofTargets<F, Challenge, RecMmcs>,
                         InnerFri,
                         _,
                         WIDTH,
@@ -275,7 +337,7 @@ macro_rules! rec_universe {
                     let mut r = b.circuit.runner();
                     r.set_public_inputs(&pubs).map_err(|e| format!("{e:?}"))?;
                     r.set_private_inputs(&privs).map_err(|e| format!("{e:?}"))?;
-                    set_fri_mmcs_private_data::<F, Challenge, ChallengeMmcs, MyMmcs, MyHash, MyCompress, DIGEST_ELEMS>(&mut r, &b.ids, &proof.opening_proof, $p2cfg)
+                    rec_flavor_private!($flavor, &mut r, &b.ids, &proof.opening_proof, $p2cfg)
                         .map_err(|e| format!("private data: {e}"))?;
                     r.run().map_err(|e| format!("{e:?}"))?;
                     Ok::<_, String>((pp, pq))
@@ -326,6 +388,9 @@ macro_rules! rec_universe {
                 r.set_private_inputs(&privs).map_err(|e| format!("{e:?}"))?;
                 let traces = r.run().map_err(|e| format!("{e:?}"))?;
                 let cfg = config(s);
+                // a hiding PCS commits to randomised (doubled) traces: the degrees handed to the
+                // prover data are the extended ones, as the repo's own ZK drivers do
+                let degrees: Vec<usize> = degrees.iter().map(|d| d + p3_uni_stark::StarkGenericConfig::is_zk(&cfg)).collect();
                 let pd = p3_batch_stark::ProverData::from_airs_and_degrees(&cfg, &airs, &degrees);
                 let cpd = CircuitProverData::new(pd, prim, npo);
                 let prover = BatchStarkProver::new(cfg).with_table_packing(packing.clone());
@@ -380,7 +445,7 @@ macro_rules! rec_universe {
                     let (vi, ids) = verify_p3_batch_proof_circuit::<
                         MyConfig,
                         MerkleCapTargets<F, DIGEST_ELEMS>,
-                        InputProofTargets<F, Challenge, RecValMmcs<F, DIGEST_ELEMS, MyHash, MyCompress>>,
+                        InputProofTargets<F, Challenge, RecMmcs>,
                         InnerFri,
                         LogUpGadget,
                         _,
@@ -417,7 +482,7 @@ macro_rules! rec_universe {
                     let mut r = b.circuit.runner();
                     r.set_public_inputs(&pubs).map_err(|e| format!("{e:?}"))?;
                     r.set_private_inputs(&privs).map_err(|e| format!("{e:?}"))?;
-                    set_fri_mmcs_private_data::<F, Challenge, ChallengeMmcs, MyMmcs, MyHash, MyCompress, DIGEST_ELEMS>(&mut r, &b.ids, &proof.proof.opening_proof, $p2cfg)
+                    rec_flavor_private!($flavor, &mut r, &b.ids, &proof.proof.opening_proof, $p2cfg)
                         .map_err(|e| format!("private data: {e}"))?;
                     r.run().map_err(|e| format!("{e:?}"))?;
                     Ok::<_, String>((pp, pq))
@@ -443,6 +508,7 @@ macro_rules! rec_universe {
             pub struct U;
             impl super::RecUni for U {
                 const NAME: &'static str = NAME;
+                const MIN_LOG_BLOWUP: usize = rec_flavor_min_blowup!($flavor);
                 type Val = F;
                 type UniProof = UniProof;
                 type BatchProof = BatchProof;
@@ -508,6 +574,7 @@ macro_rules! rec_universe {
 rec_universe!(
     kb4,
     "U-KB4",
+    plain,
     koala_bear_params,
     p3_poseidon2_circuit_air::KoalaBearD4Width16,
     p3_circuit::ops::Poseidon2Config::KOALA_BEAR_D4_W16,
@@ -516,8 +583,63 @@ rec_universe!(
 rec_universe!(
     bb4,
     "U-BB4",
+    plain,
     baby_bear_params,
     p3_poseidon2_circuit_air::BabyBearD4Width16,
     p3_circuit::ops::Poseidon2Config::BABY_BEAR_D4_W16,
     p3_baby_bear::default_babybear_poseidon2_16
 );
+rec_universe!(
+    kb4zk,
+    "U-KB4-ZK",
+    zk,
+    koala_bear_params,
+    p3_poseidon2_circuit_air::KoalaBearD4Width16,
+    p3_circuit::ops::Poseidon2Config::KOALA_BEAR_D4_W16,
+    p3_koala_bear::default_koalabear_poseidon2_16
+);
+rec_universe!(
+    kb4zks,
+    "U-KB4-ZKSALT",
+    zksalt,
+    koala_bear_params,
+    p3_poseidon2_circuit_air::KoalaBearD4Width16,
+    p3_circuit::ops::Poseidon2Config::KOALA_BEAR_D4_W16,
+    p3_koala_bear::default_koalabear_poseidon2_16
+);
+
+/// Universe of run `idx`: three in eight runs each for the two plain universes, one each for the
+/// hiding-PCS universes (plain and salted MMCS).
+pub fn universe_of(idx: u64) -> &'static str {
+    match idx % 8 {
+        0 | 2 | 4 => "U-KB4",
+        1 | 3 | 5 => "U-BB4",
+        6 => "U-KB4-ZK",
+        _ => "U-KB4-ZKSALT",
+    }
+}
+
+/// `with_rec_universe!(name, U, expr)`: evaluate `expr` with `U` bound to the universe type.
+#[macro_export]
+macro_rules! with_rec_universe {
+    ($name:expr, $U:ident, $body:expr) => {
+        match $name {
+            "U-BB4" => {
+                type $U = $crate::rec::bb4::U;
+                $body
+            }
+            "U-KB4-ZK" => {
+                type $U = $crate::rec::kb4zk::U;
+                $body
+            }
+            "U-KB4-ZKSALT" => {
+                type $U = $crate::rec::kb4zks::U;
+                $body
+            }
+            _ => {
+                type $U = $crate::rec::kb4::U;
+                $body
+            }
+        }
+    };
+}
